@@ -203,6 +203,8 @@ def worker(shard, nshards, plan, quick):
         import re
 
         shape = re.sub(r"'[^']*'|\"[^\"]*\"|\d+", "_", msg)[:120] if code in ("fingerprint", "invariant") else ""
+        if code == "json" and msg.startswith("["):
+            shape = msg[1:msg.index("]")]
         if code == "sql" and msg.startswith("[emptylist:"):
             shape = msg[1:msg.index("]")]
         key = (code, name.split(">")[-1] if code != "shared" else name, shape)
@@ -246,7 +248,22 @@ def worker(shard, nshards, plan, quick):
                     d0 = dump(t)
                     js = json.dumps(d0)
                 except Exception as e:
-                    record("json", "dump", phase, dialect, sql_text, f"dump is not JSON-serialisable: {type(e).__name__}: {str(e)[:80]}")
+                    # name the offending value and where it sits, so that another unserialisable value is another finding
+                    where = "?"
+                    try:
+                        for n in t.walk():
+                            for k, v in list(n.args.items()) + [("<meta>", n._meta)]:
+                                for x in (v if isinstance(v, list) else [v]):
+                                    if x is None or isinstance(x, exp.Expr):
+                                        continue
+                                    try:
+                                        json.dumps(x if not isinstance(x, exp.DType) else x.value)
+                                    except Exception:
+                                        where = f"{type(n).__name__}.{k}"
+                                        raise StopIteration
+                    except StopIteration:
+                        pass
+                    record("json", "dump", phase, dialect, sql_text, f"[{where}] dump is not JSON-serialisable: {type(e).__name__}: {str(e)[:80]}")
                     continue
                 try:
                     if dump(load(json.loads(js))) != d0:
